@@ -71,6 +71,10 @@ type simSample struct {
 	Vals   []*Term
 	Events []*Term // events of this iteration (back) or of the whole path (ret)
 	Panic  bool
+	// back samples: the state at the head of the iteration and the header's phi
+	// values at the head / handed on by the back edge
+	HeadSt             *State
+	HeadVals, NextVals map[string]*Term
 }
 
 type simCfg struct {
@@ -84,6 +88,7 @@ type simCfg struct {
 	UniqueMake    bool
 	NormSubslice  bool
 	PreciseExits  bool
+	BackVals      bool // back samples carry the head state and the phi values (ranking-function rules)
 	NoLoopSamples bool // only function exits are sampled
 	Model         func(c *simClient, x *Exec, st *State, fr *Frame, site ssa.CallInstruction, name string, callee *ssa.Function, fnTerm *Term, args []*Term) (bool, []CallOut)
 	OnStoreHook   func(c *simClient, x *Exec, st *State, fr *Frame, pos token.Pos, addr, val, old *Term)
@@ -209,6 +214,20 @@ func (c *simClient) OnBackEdge(x *Exec, st *State, fr *Frame, cur *Term) {
 		return
 	}
 	c.Samples = append(c.Samples, simSample{Kind: "back", Loop: cur.key, St: st.clone(), Fr: fr, Events: append([]*Term(nil), c.g(st).events...)})
+}
+
+func (c *simClient) WantsBackEdgeVals() bool {
+	return c.cfg != nil && c.cfg.BackVals && !c.cfg.NoLoopSamples
+}
+
+func (c *simClient) OnBackEdgeVals(x *Exec, st *State, fr *Frame, cur *Term, head *State, headVals, nextVals map[string]*Term) {
+	if c.cfg.NoLoopSamples || len(c.Samples) == 0 {
+		return
+	}
+	s := &c.Samples[len(c.Samples)-1]
+	if s.Kind == "back" && s.Loop == cur.key {
+		s.HeadSt, s.HeadVals, s.NextVals = head, headVals, nextVals
+	}
 }
 
 // runSim simulates fn from its entry and returns all samples: one per loop
